@@ -715,6 +715,15 @@ func (s *DB) getHistoricRootsAndNodes(
 			}
 		}
 	}
+	if len(candidateBlocks) > 0 {
+		// Nodes are content-addressed: a version that stays may refer to the very
+		// node a deletable ancestor refers to (e.g. a table that returned to an
+		// earlier content). Never delete a node that a remaining version reaches.
+		err = s.keepReachableNodes(ctx, rootCacheByName, candidateRoots, candidateBlocks)
+		if err != nil {
+			return nil, nil, err
+		}
+	}
 	nodes = make([]string, 0, len(candidateBlocks))
 	for k := range candidateBlocks {
 		nodes = append(nodes, k)
@@ -724,6 +733,61 @@ func (s *DB) getHistoricRootsAndNodes(
 		roots = append(roots, k)
 	}
 	return roots, nodes, nil
+}
+
+// keepReachableNodes removes from candidateBlocks every node reachable from a
+// version that is not going to be deleted: this tree, the remaining versions
+// of its history, and the current versions of other writers.
+func (s *DB) keepReachableNodes(
+	ctx context.Context,
+	graph rootGraph,
+	candidateRoots dependentRoots,
+	candidateBlocks map[string]int,
+) error {
+	keep := func(m *mast.Mast) error {
+		return m.DiffLinks(ctx, nil, func(removed bool, link interface{}) (bool, error) {
+			if ls, ok := link.(string); ok && !removed {
+				delete(candidateBlocks, ls)
+			}
+			return true, nil
+		})
+	}
+	if err := keep(s.crdt.Mast); err != nil {
+		return fmt.Errorf("links of this version: %w", err)
+	}
+	remaining := map[string]*crdt.Root{}
+	for name, root := range graph {
+		if _, deletable := candidateRoots[name]; !deletable {
+			remaining[name] = root
+		}
+	}
+	current, err := s.listRoots(ctx)
+	if err != nil {
+		return fmt.Errorf("list current versions: %w", err)
+	}
+	for _, name := range current {
+		if _, ok := remaining[name]; ok {
+			continue
+		}
+		root, _, err := loadRootFromAny(ctx, []mast.Persist{s.root}, name)
+		if err != nil {
+			return fmt.Errorf("load %s: %w", name, err)
+		}
+		if root != nil {
+			remaining[name] = root
+		}
+	}
+	for name, root := range remaining {
+		name := name
+		tree, err := crdt.Load(ctx, s.crdt.Config, &name, *root)
+		if err != nil {
+			return fmt.Errorf("load %s: %w", name, err)
+		}
+		if err := keep(tree.Mast); err != nil {
+			return fmt.Errorf("links of %s: %w", name, err)
+		}
+	}
+	return nil
 }
 
 // IsDirty returns true if there are entries in memory that haven't been Commit()ted.
